@@ -2,7 +2,7 @@
 """W-construct for DNS RDATA: library objects and reference encodings (vmon/ref/dns.py) from the same choices."""
 import datetime
 
-from vmon.gen.tls import Pair, pick_len, rbytes
+from vmon.gen.tls import Pair, guarded, pick_len, rbytes
 from vmon.ref import dns as ref
 
 UTC = datetime.timezone.utc
@@ -48,7 +48,7 @@ def labels(rng):
     count = rng.choice([0, 1, 2, 3, 5])
     result = []
     for _ in range(count):
-        result.append(rng.choice(['example', 'com', 'a', 'mail', 'sub-domain', 'x' * 63, 'n%d' % rng.randrange(1000), 'org']))
+        result.append(rng.choice(['example', 'com', 'a', 'mail', 'sub-domain', 'x' * 63, 'n%d' % rng.randrange(1000), 'org', 'MAIL', 'Example', 'xN']))
     return result
 
 
@@ -137,7 +137,7 @@ def rrsig(rng):
              datetime.timezone(datetime.timedelta(minutes=330))]
     lib = record.DnsRecordRrsig(
         covered_lib, algorithm, label_count, ttl, datetime.datetime.fromtimestamp(times[0], rng.choice(zones)),
-        datetime.datetime.fromtimestamp(times[1], rng.choice(zones)), tag, record.DnsNameUncompressed(list(signer)), signature)
+        datetime.datetime.fromtimestamp(times[1], rng.choice(zones)), tag, record.DnsNameUncompressed(list(signer)) if rng.random() < 0.5 else '.'.join(signer), signature)
     wire = ref.rrsig(covered, algorithm.value.code, label_count, ttl, times[0], times[1], tag,
                      [label.encode('ascii') for label in signer], signature)
     return Pair('rrsig', lib, wire)
@@ -162,7 +162,9 @@ def mx(rng):  # pylint: disable=invalid-name
     record, _, _, _ = _mods()
     preference = rng.choice([0, 1, 10, 65535, rng.randrange(65536)])
     exchange = labels(rng)
-    lib = record.DnsRecordMx(preference, record.DnsNameUncompressed(list(exchange)))
+    # the name as a label list or, as callers usually have it, as dotted text (letter case is preserved on the wire)
+    given = record.DnsNameUncompressed(list(exchange)) if rng.random() < 0.5 else '.'.join(exchange)
+    lib = record.DnsRecordMx(preference, given)
     return Pair('mx', lib, ref.mx(preference, [label.encode('ascii') for label in exchange]))
 
 
@@ -211,10 +213,11 @@ def txt_long(rng):
                 {'any_split': text.encode('ascii')}, compose_must_match=False, key_suffix='+long')
 
 
-def generate(rng, count):
+def generate(rng, count, failures=False):
     makers = [dnskey, dnskey, dnskey, ds, rrsig, rrsig_max_time, mx, dns_name, idna_name, txt, txt_multi, txt_long]
     produced = 0
     while produced < count:
         for maker in makers:
-            yield maker(rng)
-            produced += 1
+            for pair in guarded(maker, rng, failures):
+                yield pair
+                produced += 1
